@@ -418,6 +418,25 @@ def oracle_hwconv(np, case):
             if not e <= tol:
                 out.add('hw-convergence', f'HW tree european {nm} on {"zcb" if zcb else "coupon bond"} with n={n}: {tr[nm]!r} vs closed form '
                         f'{ref[nm]!r}; |diff| {e:.3e} > tol {tol:.3e}', n=n, tree=float(tr[nm]), closed=float(ref[nm]))
+        if zcb and n >= 8:
+            # the same option read off a tree that was built BEYOND the option expiry (as for Bermudans / several options on
+            # one tree): the expiry is tree date j of n, chosen so that it falls exactly on the grid; the price must still be
+            # the closed form within the bound for j steps to expiry (seed C03-12: expiry step taken as the last tree step)
+            for j in (n // 2, (3 * n) // 4):
+                tm = te * n / j
+                if j < 4 or tm > float(tk[-1]) or tm > T + 1e-12 or abs(te / (tm / n) - j) > 1e-9:
+                    continue
+                m2 = HWTree(sigma, a, n)
+                m2.build_tree(tm, tk, dk)
+                tr2 = m2.option_on_zero_cpn_bond_tree(te, T, K, face)
+                tol2 = 2.0 * S / j + floor
+                for nm in ('call', 'put'):
+                    e = abs(float(tr2[nm]) - float(ref[nm]))
+                    if not e <= tol2:
+                        out.add('hw-convergence', f'HW tree european {nm} on zcb read at tree date {j} of a tree of {n} steps built to '
+                                f't={tm!r} > expiry {te!r}: {tr2[nm]!r} vs closed form {ref[nm]!r}; |diff| {e:.3e} > tol {tol2:.3e}',
+                                n=n, expiry_step=j, tree_maturity=tm, tree=float(tr2[nm]), closed=float(ref[nm]))
+                break
     return out
 
 
